@@ -240,6 +240,10 @@ func checkC02(c *Ctx) {
 	r.Rule("R02m", "each string the URL binders convert is an element of the URL's own value list (r.PathValue / r.URL.Query()), never a derived string", 3)
 	urlValueProvenance(c, ep, "R02m")
 	c02PathVariableAgreement(c)
+	r.Rule("R02r", "the URL binders visit every parameter of the route: their loop over the parameter table is left only with a violation, never with a successful return or a break", 2)
+	bindersVisitEveryParameter(c, ep, "R02r")
+	r.Rule("R02q", "violations of the URL binders are deliverable: the raw URL value is formatted into a description only under %q (strconv's errors quote their input)", 2)
+	urlValueNotEchoed(c, ep, "R02q")
 	r.Rule("R02o", "the server decodes a request body for exactly POST, PUT and PATCH (shared with C01/R01b): a bodiless verb's URL-bound request is not refused, or overwritten, because of body bytes", 1)
 	if _, lit := middlewareLit(ep); lit != nil {
 		verbs := guardConstSet(ep.Info, lit.Body, func(call *ast.CallExpr) bool {
@@ -978,5 +982,192 @@ func c02PathVariableAgreement(c *Ctx) {
 		r.CheckD(len(missing) == 0, "R02n", "contract-bound path variables are server-bound: "+s.String(), opos,
 			fmt.Sprintf("%s: the OpenAPI operation declares path parameters %v (each bound to the request field of that name) but the Go server's PathParamConfig table binds only %v — %v is carried in the URL and never reaches the handler's request message", s, ops, sortedKeys(bound), missing),
 			map[string]any{"openapi": ops, "go_server_table": sortedKeys(bound)})
+	}
+}
+
+// urlValueNotEchoed — R02q / R10l / R11j. The URL binders answer a value they cannot convert with a ValidationError whose
+// description names the parameter and carries strconv's error (which quotes its input). The raw URL value itself — any
+// bytes after percent-decoding — must not be formatted into the description except under %q: a description that is not
+// valid UTF-8 cannot be marshalled, and the 400 degrades to a bare text body without the violation.
+func urlValueNotEchoed(c *Ctx, ep *EmittedPkg, rid string) {
+	r := c.R
+	for _, name := range []string{"bindPathParams", "bindQueryParams"} {
+		fd := ep.Funcs[name]
+		if fd == nil {
+			r.Unres(rid, name, "", "emitted function not found")
+			continue
+		}
+		tainted := map[types.Object]bool{}
+		isRawSource := func(e ast.Expr) bool {
+			raw := false
+			ast.Inspect(e, func(n ast.Node) bool {
+				switch x := n.(type) {
+				case *ast.CallExpr:
+					switch qname(ep.CalleeOf(x)) {
+					case "net/http.(Request).PathValue", "net/url.(URL).Query", "net/url.(Values).Get":
+						raw = true
+					}
+				case *ast.Ident:
+					if tainted[ep.Info.ObjectOf(x)] {
+						raw = true
+					}
+				}
+				return true
+			})
+			return raw
+		}
+		for round := 0; round < 4; round++ {
+			ast.Inspect(fd.Body, func(n ast.Node) bool {
+				switch x := n.(type) {
+				case *ast.AssignStmt:
+					if len(x.Lhs) == len(x.Rhs) {
+						for i, l := range x.Lhs {
+							if id, ok := l.(*ast.Ident); ok && isRawSource(x.Rhs[i]) {
+								// the result of a conversion (converted, err := convert(v)) is not the raw text
+								if call, isCall := ast.Unparen(x.Rhs[i]).(*ast.CallExpr); isCall {
+									if f := ep.CalleeOf(call); f != nil && f.Pkg() == ep.Pkg {
+										continue
+									}
+								}
+								if o := ep.Info.ObjectOf(id); o != nil {
+									if b, ok := o.Type().Underlying().(*types.Basic); !ok || b.Info()&types.IsString != 0 {
+										tainted[o] = true
+									}
+								}
+							}
+						}
+					}
+				case *ast.RangeStmt:
+					if id, ok := x.Value.(*ast.Ident); ok && isRawSource(x.X) {
+						if o := ep.Info.ObjectOf(id); o != nil {
+							tainted[o] = true
+						}
+					}
+				}
+				return true
+			})
+		}
+		n := 0
+		bad := ""
+		var bpos token.Pos
+		ast.Inspect(fd.Body, func(nd ast.Node) bool {
+			kv, ok := nd.(*ast.KeyValueExpr)
+			if !ok || types.ExprString(kv.Key) != "Description" {
+				return true
+			}
+			n++
+			ast.Inspect(kv.Value, func(m ast.Node) bool {
+				call, ok := m.(*ast.CallExpr)
+				if !ok || len(call.Args) < 2 {
+					return true
+				}
+				cal := ep.CalleeOf(call)
+				if cal == nil || cal.Pkg() == nil || cal.Pkg().Path() != "fmt" {
+					return true
+				}
+				format := ""
+				if tv, ok := ep.Info.Types[call.Args[0]]; ok && tv.Value != nil {
+					format = tv.Value.ExactString()
+				}
+				verbs := regexp.MustCompile(`%[-+# 0-9.]*[a-zA-Z]`).FindAllString(format, -1)
+				for i, a := range call.Args[1:] {
+					id, ok := ast.Unparen(a).(*ast.Ident)
+					if !ok || !tainted[ep.Info.ObjectOf(id)] {
+						continue
+					}
+					// a string of type error is not raw text
+					if isErrorType(ep.Info.TypeOf(a)) {
+						continue
+					}
+					verb := ""
+					if i < len(verbs) {
+						verb = verbs[i]
+					}
+					if !strings.HasSuffix(verb, "q") && bad == "" {
+						bad = fmt.Sprintf("%s printed with %q", id.Name, verb)
+						bpos = call.Pos()
+					}
+				}
+				return true
+			})
+			return true
+		})
+		pos := ep.GenPos(fd.Pos())
+		if bad != "" {
+			pos = ep.GenPos(bpos)
+		}
+		r.CheckD(n > 0 && bad == "", rid, name+": violation descriptions do not embed the raw URL value (only under %q)", pos,
+			"the emitted "+name+" formats the raw URL value into FieldViolation.Description ("+bad+"): a segment or query value that percent-decodes to invalid UTF-8 (/items/%FF) gives a ValidationError that cannot be marshalled, and the client receives text/plain 400 without the violation that names the field", map[string]any{"descriptions": n, "raw_values": len(tainted)})
+	}
+}
+
+// bindersVisitEveryParameter — R02r / R03g. The URL binders loop over the route's parameter table. Inside that loop the only
+// way out of the function is a failure (a non-nil violation): `return nil` for one parameter — an absent optional one —
+// leaves every parameter declared after it unbound although the URL carries it.
+func bindersVisitEveryParameter(c *Ctx, ep *EmittedPkg, rid string) {
+	r := c.R
+	for _, name := range []string{"bindPathParams", "bindQueryParams"} {
+		fd := ep.Funcs[name]
+		if fd == nil {
+			r.Unres(rid, name, "", "emitted function not found")
+			continue
+		}
+		// the slice parameter that holds the table
+		tables := map[types.Object]bool{}
+		for _, f := range fd.Type.Params.List {
+			for _, n := range f.Names {
+				if o := ep.Info.Defs[n]; o != nil {
+					if _, isSlice := o.Type().Underlying().(*types.Slice); isSlice {
+						tables[o] = true
+					}
+				}
+			}
+		}
+		nLoops := 0
+		bad := ""
+		var bpos token.Pos
+		parents := parentMap(fd.Body)
+		ast.Inspect(fd.Body, func(nd ast.Node) bool {
+			rs, ok := nd.(*ast.RangeStmt)
+			if !ok {
+				return true
+			}
+			if id := rootIdentOf(rs.X); id == nil || !tables[ep.Info.ObjectOf(id)] {
+				return true
+			}
+			nLoops++
+			ast.Inspect(rs.Body, func(m ast.Node) bool {
+				switch x := m.(type) {
+				case *ast.FuncLit:
+					return false
+				case *ast.ReturnStmt:
+					if len(x.Results) == 1 && isNilIdent(x.Results[0]) && bad == "" {
+						bad, bpos = "return nil", x.Pos()
+					}
+				case *ast.BranchStmt:
+					if x.Tok == token.BREAK && bad == "" {
+						// a break that leaves the parameter loop (not a switch or an inner loop)
+						inner := false
+						for p := parents[ast.Node(x)]; p != nil && p != ast.Node(rs); p = parents[p] {
+							switch p.(type) {
+							case *ast.ForStmt, *ast.RangeStmt, *ast.SwitchStmt, *ast.TypeSwitchStmt, *ast.SelectStmt:
+								inner = true
+							}
+						}
+						if !inner && x.Label == nil {
+							bad, bpos = "break", x.Pos()
+						}
+					}
+				}
+				return true
+			})
+			return true
+		})
+		pos := ep.GenPos(fd.Pos())
+		if bad != "" {
+			pos = ep.GenPos(bpos)
+		}
+		r.Check(nLoops > 0 && bad == "", rid, name+": the parameter loop is left only with a violation", pos,
+			"the emitted "+name+" leaves its loop over the route's parameters with `"+bad+"`: every parameter declared after the one that triggered it stays unbound although the URL carries a value for it — the handler sees zero values the caller did not send")
 	}
 }
